@@ -33,7 +33,7 @@ OBJ = {"a": [1, 2, {"b": 3}], "items": [{"n": 1}, {"n": 2}, {"n": 3}], "é": "e-
 ARR = [{"a": [1, 2, {"b": 3}], "n": 2}, {"a": [], "n": 0}, "s", {"é": 1, "\\u00e9": 2, "x y": 3, "x%20y": 4}]
 DOCS = {"object": json.dumps(OBJ).encode(), "array": json.dumps(ARR).encode(), "malformed": b'{"a": [1, ', "undecodable": b'{"a": "\xff\xfe"}', "empty-file": b""}
 
-PATH = {"ok": "$..a[*]", "ok-filter": "$..[?@.n > 1].n", "ok-escape": "$..['\\u00e9']", "ok-empty-result": "$.nope.nada", "syntax": "$[1,,2]",
+PATH = {"ok": "$..a[*]", "ok-filter": "$..[?@.n > 1].n", "ok-escape": "$..['\\u00e9']", "ok-empty-result": "$.nope.nada", "ok-empty-query": "", "syntax": "$[1,,2]",
         "type": "$[?length(@.a, @.b) > 1]", "name": "$[?nosuch(@.a)]", "index": "$[9007199254740992]",
         "illtyped-only-when-checked": "$..[?length(@.*) > 1]", "unterminated": "$['a", "bad-regex": "$..[?@.s =~ /(/]"}
 POINTER = {"object": {"ok": "/a/2/b", "ok-root": "", "ok-escape": "/\\u00e9", "ok-uri": "/x%20y", "ok-nonascii": "/é", "unresolvable-key": "/nope",
@@ -42,11 +42,13 @@ POINTER = {"object": {"ok": "/a/2/b", "ok-root": "", "ok-escape": "/\\u00e9", "o
                      "unresolvable-index": "/99", "into-scalar": "/2/0", "no-leading-slash": "0/a"}}
 PATCH = {"object": {"ok": [{"op": "add", "path": "/a/-", "value": {"k": [0]}}, {"op": "copy", "from": "/items/0", "path": "/c"}, {"op": "test", "path": "/c/n", "value": 1}],
                     "ok-root": [{"op": "replace", "path": "", "value": {"z": [1, True, None]}}], "ok-empty": [],
+                    "ok-escape": [{"op": "replace", "path": "/\\u00e9", "value": "REPLACED"}],
                     "test-fails": [{"op": "test", "path": "/a/0", "value": True}], "missing-target": [{"op": "remove", "path": "/nope/x"}]},
          "array": {"ok": [{"op": "add", "path": "/0/a/-", "value": {"k": [0]}}, {"op": "move", "from": "/1", "path": "/-"}],
                    "ok-root": [{"op": "add", "path": "", "value": [1, 2]}], "ok-empty": [],
+                   "ok-escape": [{"op": "replace", "path": "/3/\\u00e9", "value": "REPLACED"}],
                    "test-fails": [{"op": "test", "path": "/0/n", "value": "2"}], "missing-target": [{"op": "replace", "path": "/9", "value": 1}]}}
-PATCH_ANY = {"not-an-array": b'{"op": "add", "path": "/a", "value": 1}', "malformed-json": b'[{"op": "add", ', "unknown-op": b'[{"op": "frob", "path": "/a"}]',
+PATCH_ANY = {"non-object-member": b'[{"op": "test", "path": "", "value": 1}, 7]', "not-an-array": b'{"op": "add", "path": "/a", "value": 1}', "malformed-json": b'[{"op": "add", ', "unknown-op": b'[{"op": "frob", "path": "/a"}]',
              "missing-member": b'[{"op": "add", "path": "/a"}]', "bad-pointer": b'[{"op": "add", "path": "a", "value": 1}]', "undecodable": b'[{"op": "\xff"}]'}
 
 
